@@ -20,6 +20,7 @@ type siteTable struct {
 	Solved     map[string]string `json:"solved"`
 	Argued     map[string]string `json:"argued"`
 	Goroutines map[string]string `json:"goroutines"` // functions starting goroutines, with the recorded argument
+	GoSolved   map[string]string `json:"goroutines_solved"` // functions whose goroutines are scheduled by a harness under the thread model
 }
 
 type scanResult struct {
@@ -90,7 +91,7 @@ func scanMapRanges(scratch string) (*scanResult, error) {
 					case *ast.GoStmt:
 						pos := p.Fset.Position(n.Pos())
 						res.GoSites = append(res.GoSites, fmt.Sprintf("%s (%s:%d)", key, trimPath(pos.Filename), pos.Line))
-						if tab.Goroutines[key] == "" {
+						if tab.Goroutines[key] == "" && tab.GoSolved[key] == "" {
 							res.GoUncovered = append(res.GoUncovered, key)
 						}
 					case *ast.CallExpr:
